@@ -297,7 +297,7 @@ func c01Case(r *obs.Run, i int) {
 			}
 		}
 		for _, b := range budgets {
-			lw := &limitWriter{budget: b, want: data}
+			lw := &limitWriter{budget: b, want: data, eager: rng.Intn(2) == 0}
 			fwrite, fdone := newWriter(lw)
 			sum, sawErr := 0, false
 			for k := range recs {
